@@ -169,6 +169,56 @@ def _xml(rng, modes=("fixed",)):
   return xml
 
 
+def _xml_chain(rng, modes=("fixed",)):
+  """one kinematic tree (3-5 link chain, optionally on a floating base) carrying 2-4 tendons with DIFFERENT dof supports:
+  fixed tendon over the first two joints, fixed tendon over the last joint only (disjoint), then spatial tendons between
+  sites of different links and further fixed tendons over random (overlapping) joint subsets; motors on the tendons."""
+  from harness.gen import models
+  n = int(rng.integers(3, 6))
+  free = rng.random() < 0.3
+  out, close = [], []
+  if free:
+    out.append(f'    <body name="base" pos="{models._f(rng.uniform(-0.2, 0.2, size=3) + [0, 0, 1.2])}"><freejoint/>'
+               f'<geom type="box" size="0.1 0.08 0.06" mass="{rng.uniform(1, 4):.3g}"/><site name="sb" pos="0.05 0.02 0.03"/>')
+    close.append("</body>")
+  joints, sites = [], (["sb"] if free else [])
+  for k in range(n):
+    q = rng.normal(size=4); q /= np.linalg.norm(q)
+    ax = rng.normal(size=3); ax /= np.linalg.norm(ax)
+    jt = "slide" if rng.random() < 0.3 else "hinge"
+    pos = rng.uniform(-0.25, 0.25, size=3) + ([0, 0, 1.0] if (k == 0 and not free) else [0.2, 0, 0])
+    out.append(f'    <body name="k{k}" pos="{models._f(pos)}" quat="{models._f(q)}"><joint name="q{k}" type="{jt}" axis="{models._f(ax)}"/>'
+               f'<geom type="capsule" size="0.04 {rng.uniform(0.05, 0.15):.3g}" pos="{models._f(rng.uniform(-0.1, 0.1, size=3))}" mass="{rng.uniform(0.3, 2):.3g}"/>'
+               f'<site name="p{k}" pos="{models._f(rng.uniform(-0.1, 0.1, size=3))}"/>')
+    close.append("</body>")
+    joints.append(f"q{k}")
+    sites.append(f"p{k}")
+  wb = "\n".join(out) + "\n    " + "".join(close)
+  nt = int(rng.integers(2, 5))
+  ten, names, spatial = [], [], []
+
+  def fixed(name, js):
+    ten.append(f'    <fixed name="{name}" stiffness="{rng.uniform(0, 3):.3g}" springlength="-1">' + "".join(f'<joint joint="{j}" coef="{rng.choice([-1, 1]) * rng.uniform(0.3, 1.5):.3g}"/>' for j in js) + "</fixed>")
+    names.append(name)
+
+  fixed("t0", joints[:2])
+  fixed("t1", joints[-1:])
+  for t in range(2, nt):
+    if t == 2 or rng.random() < 0.5:
+      a, b = sorted(rng.choice(len(sites), size=2, replace=False))
+      ten.append(f'    <spatial name="t{t}" stiffness="{rng.uniform(0, 3):.3g}" springlength="-1"><site site="{sites[a]}"/><site site="{sites[b]}"/></spatial>')
+      names.append(f"t{t}")
+      spatial.append(f"t{t}")
+    else:
+      fixed(f"t{t}", list(rng.choice(joints, size=int(rng.integers(1, len(joints) + 1)), replace=False)))
+  act = [f'    <motor tendon="{t}" gear="{rng.choice([-1, 1]) * rng.uniform(0.5, 3):.3g}"/>' for t in names if rng.random() < 0.8]
+  act += [f'    <motor joint="{j}" gear="{rng.uniform(0.5, 2):.3g}"/>' for j in joints if rng.random() < 0.4]
+  if rng.random() < 0.5:
+    act.append(f'    <position tendon="t0" kp="{rng.uniform(5, 100):.4g}" dampratio="{rng.uniform(0.3, 1.5):.3g}"/>')
+  extra = "  <tendon>\n" + "\n".join(ten) + "\n  </tendon>\n  <actuator>\n" + "\n".join(act or ['    <motor tendon="t0"/>']) + "\n  </actuator>"
+  return models.wrap(wb, option='timestep="0.004"', extra=extra)
+
+
 def _edit(rng, r):
   """random set_const-safe changes of one world's model (r: MjModel, edited in place)"""
   import mujoco
@@ -257,11 +307,11 @@ def _dense_M(r, rd):
 # oracle
 
 
-def _case(rng, acc, c, modes, seed_tag):
+def _case(rng, acc, c, modes, seed_tag, xml_fn=None, strict=False):
   import mujoco
   import warp as wp
   import mujoco_warp as mjw
-  xml = _xml(rng, modes)
+  xml = (xml_fn or _xml)(rng, modes)
   try:
     mjm = mujoco.MjModel.from_xml_string(xml)
   except ValueError:
@@ -321,7 +371,7 @@ def _case(rng, acc, c, modes, seed_tag):
   if not ok:
     acc.hit("mujoco-rejects-edit")
     return
-  if conds and max(conds) > 1e5:
+  if conds and max(conds) > (1e4 if strict else 1e5):
     acc.hit("ill-conditioned-skipped")
     return
   acc.evals += 1
@@ -353,6 +403,8 @@ def _case(rng, acc, c, modes, seed_tag):
       if ref.size == 0:
         continue
       tol_r, tol_a = (5e-3, 5e-4) if (f in SOLVED or f == "meaninertia") else (2e-4, 2e-5)
+      if strict and f in ("tendon_invweight0", "dof_invweight0", "actuator_acc0"):
+        tol_r, tol_a = 2e-3, 1e-6      # per entry, relative: a 10 % error of ANY tendon / dof / actuator is a finding
       scale = max(1e-6, float(np.abs(ref).max()))
       if f == "eq_data":     # quaternions: sign-free comparison is not needed (both compute q1^-1 q2 / normalise the same input)
         pass
@@ -445,6 +497,9 @@ def _case(rng, acc, c, modes, seed_tag):
   if mjm.neq: acc.hit("equality")
   if any(r.actuator_biasprm[a, 2] != refs[0].actuator_biasprm[a, 2] for r in refs for a in range(mjm.nu)): acc.hit("per-world-damping")
   if mjm.ncam or mjm.nlight: acc.hit("camlight-tracking" if tracking else "camlight-fixed")
+  if strict:
+    acc.hit("tendon-chain")
+    acc.hit(f"tendon-chain:ntendon={int(mjm.ntendon)}")
   acc.sample({"nbody": int(mjm.nbody), "nv": int(mjm.nv), "ntendon": int(mjm.ntendon), "nu": int(mjm.nu), "neq": int(mjm.neq), "ncam": int(mjm.ncam), "nlight": int(mjm.nlight),
               "nworld": nworld, "how": how, "restore": restore})
 
@@ -647,17 +702,22 @@ RULE = ("random forests (2-5 bodies; free/ball/hinge/slide joints; fixed and spa
         "body_mass/inertia/pos/quat/ipos, qpos0, qpos_spring, dof_armature, eq_data (anchors, zeroed or user relative pose), tendon_stiffness/lengthspring, kp and damping ratio (batched Model "
         "fields as in set_const_test.py); mjw.set_const or set_const_fixed+set_const_0+set_const_spring with restore True/False at a random state; per world every derived field vs "
         "mujoco.mj_setConst on an MjModel edited the same way; state fields bitwise; then forward + a second call: all Data arrays bitwise unchanged, biasprm bitwise unchanged; "
-        "set_length_range vs limits*gear. First a regression case of the repaired batch-slice defect (all 8 batchings of the camera / light reference fields, 3 worlds). Main runs use FIXED cameras/lights; a separate run with tracking/target modes exhibits the still-present Witness defect (trigger camlight-mode). "
+        "set_length_range vs limits*gear. Every run also contains >= 2 single-tree chains (3-5 links, optional floating base) with 2-4 tendons of different dof support (fixed over the first two joints, fixed over the last joint, spatial between links, random overlapping fixed ones) and motors on them, where tendon_invweight0 / dof_invweight0 / actuator_acc0 are compared per entry at relative 2e-3 (cond(M) <= 1e4). First a regression case of the repaired batch-slice defect (all 8 batchings of the camera / light reference fields, 3 worlds). Main runs use FIXED cameras/lights; a separate run with tracking/target modes exhibits the still-present Witness defect (trigger camlight-mode). "
         "distinct = (case, world, sizes)")
 
 
-def _run(ctx, ncases, ntrack, rec):
+def _run(ctx, ncases, ntrack, rec, nchain=2):
   rng = np.random.default_rng(ctx.seed * 1000 + 33)
   acc = Acc()
   state = {}
 
   def scenario():
     _regress_batch_slices(acc)
+    # at least two models with several tendons of different dof support on one kinematic tree (per-tendon loop of set_const_0)
+    tries = 0
+    while acc.hist.get("tendon-chain", 0) < nchain and tries < 4 * nchain:
+      _case(rng, acc, 2000 + tries, ("fixed",), f"{ctx.seed}/tendon-chain", xml_fn=_xml_chain, strict=True)
+      tries += 1
     for c in range(ncases):
       _case(rng, acc, c, ("fixed",), f"{ctx.seed}/main")
     for c in range(ntrack):
@@ -672,7 +732,7 @@ def _run(ctx, ncases, ntrack, rec):
 
 
 def correspondence(ctx):
-  acc, kc = _run(ctx, 30 if ctx.thorough else 4, 6 if ctx.thorough else 1, True)
+  acc, kc = _run(ctx, 30 if ctx.thorough else 4, 6 if ctx.thorough else 1, True, nchain=8 if ctx.thorough else 2)
   dis, n = _host_trace(acc)
   out = result(acc, RULE, kc=kc, extra={"host_trace_checks": n})
   out["disagreements"] = out["disagreements"] + dis
@@ -680,5 +740,5 @@ def correspondence(ctx):
 
 
 def search(ctx, breaks):
-  acc, _ = _run(ctx, 60, 10, False)
+  acc, _ = _run(ctx, 60, 10, False, nchain=12)
   return search_result(acc, "mujoco.mj_setConst per world + bitwise Data comparison")
